@@ -54,6 +54,55 @@ impl Rng {
     pub fn pick<T: Clone>(&mut self, items: &[T]) -> T { items[self.below(items.len() as u64) as usize].clone() }
 }
 
+/// Process-level watchdog: the step loops beat before every step; when no step has completed for 25 s (the main thread is
+/// itself stuck, e.g. a snapshot waits for a shard lock that a blocked call holds) the watchdog records the hang in the
+/// output files and ends the process, instead of leaving that to the caller's much longer time limit.
+pub static BEAT: std::sync::atomic::AtomicU64 = std::sync::atomic::AtomicU64::new(0);
+pub static PENDING: Mutex<Option<String>> = Mutex::new(None);
+
+pub fn beat(pending_event: Option<String>) {
+    *PENDING.lock().unwrap_or_else(|p| p.into_inner()) = pending_event;
+    BEAT.fetch_add(1, std::sync::atomic::Ordering::SeqCst);
+}
+
+fn start_watchdog(out: String) {
+    std::thread::spawn(move || {
+        let mut last = BEAT.load(std::sync::atomic::Ordering::SeqCst);
+        let mut since = std::time::Instant::now();
+        loop {
+            std::thread::sleep(std::time::Duration::from_millis(500));
+            let now = BEAT.load(std::sync::atomic::Ordering::SeqCst);
+            if now != last { last = now; since = std::time::Instant::now(); continue; }
+            if last == 0 || since.elapsed() < std::time::Duration::from_secs(25) { continue; }
+            let pending = PENDING.lock().unwrap_or_else(|p| p.into_inner()).clone();
+            let append = |suffix: &str, lines: &[String]| {
+                if let Ok(mut file) = std::fs::OpenOptions::new().append(true).open(format!("{}.{}", out, suffix)) { for line in lines { let _ = writeln!(file, "{}", line); } }
+            };
+            let note = "# hang harness-watchdog:_no_step_completed_for_25_s_(the_step_below_never_returned)".to_string();
+            if let Some(event) = pending {
+                append("in", &[format!("{} #watchdog", event), note.clone()]);
+                append("impl", &["R hang the_step_never_returned |".to_string(), note]);
+            } else {
+                append("in", &[note.clone()]);
+                append("impl", &[note]);
+            }
+            std::process::exit(3);
+        }
+    });
+}
+
+/// A hard time limit for a free-running mode: when it passes, the given lines are appended to the output files and the
+/// process ends with the "hang recorded" exit code.
+pub fn start_deadline(out: String, seconds: u64, input_lines: Vec<String>, implementation_lines: Vec<String>) {
+    std::thread::spawn(move || {
+        std::thread::sleep(std::time::Duration::from_secs(seconds));
+        for (suffix, lines) in [("in", &input_lines), ("impl", &implementation_lines)] {
+            if let Ok(mut file) = std::fs::OpenOptions::new().append(true).open(format!("{}.{}", out, suffix)) { for line in lines.iter() { let _ = writeln!(file, "{}", line); } }
+        }
+        std::process::exit(3);
+    });
+}
+
 pub struct Sink {
     pub input: std::io::BufWriter<std::fs::File>,
     pub implementation: std::io::BufWriter<std::fs::File>,
@@ -92,6 +141,8 @@ pub fn run_case(sink: &mut Sink, header: &str, cfg: engine::Cfg, mut next: impl 
     writeln!(sink.implementation, "R init | {}", snapshot.text).unwrap();
     let mut step = 0;
     while let Some(ev) = next(&mut engine, &snapshot, step) {
+        sink.flush();
+        beat(Some(format!("E {}", ev.line())));
         let (oracle, out) = engine.exec(&ev);
         if engine.hung || out.starts_with("hang") {
             // a thread is stuck (possibly holding a lock): do not touch the cache again, not even for a snapshot
@@ -106,6 +157,8 @@ pub fn run_case(sink: &mut Sink, header: &str, cfg: engine::Cfg, mut next: impl 
         writeln!(sink.implementation, "R {} | {}", out, snapshot.text).unwrap();
         step += 1;
     }
+    sink.flush();
+    beat(None);
     let panics: Vec<String> = std::mem::take(&mut *PANIC_LOG.lock().unwrap());
     for panic in panics { sink.both(&format!("# panic {}", panic)); }
     match engine.finish() {
@@ -127,6 +180,7 @@ fn main() {
     let mode = args.get(1).cloned().unwrap_or_default();
     let out = arg(&args, "--out").unwrap_or("/dev/null".to_string());
     let seed: u64 = arg(&args, "--seed").and_then(|s| s.parse().ok()).unwrap_or(1);
+    if mode == "seq" || mode == "replay" || mode == "conc" { start_watchdog(out.clone()); }
     let ok = match mode.as_str() {
         "seq" => {
             let cases: u64 = arg(&args, "--cases").and_then(|s| s.parse().ok()).unwrap_or(10);
